@@ -743,6 +743,7 @@ func matrixCase(s *hlib.Suite, r *hlib.Rng, tier string) {
 func main() {
 	cfg := hlib.ParseFlags()
 	s := hlib.NewSuite(cfg, "sort")
+	defer s.FinishOnPanic()
 	s.Header = "From Coq Require Import Uint63.\nFrom QF Require Import Base.Prelude Base.CaseLib Model.Frame Model.Sort Corr.SortCorr.\n"
 	s.CaseType = "sort_case"
 	s.CheckFn = "check_sort"
